@@ -611,7 +611,8 @@ class MessageManager(ClientLike):
             header (MessageHeader): Message header to send
             payload (Union[bytes, MessageData]): Message data to send
         """
-        for module in self.logger_modules:
+        # iterate over a copy: a failed write removes the module from the set
+        for module in list(self.logger_modules):
             if module.conn not in self.wlist:
                 # Block until logger is ready
                 select.select([], [module.conn], [], None)
